@@ -177,3 +177,68 @@ pub fn run_share(body: &[Sexp]) -> String {
     f => panic!("bad share form {f}"),
   }
 }
+
+/// (share_reenter): a subscriber joins the shared observable from inside a callback of that shared observable (after the first
+/// subscriber has connected it, while an emission is in progress): it does not see the item in flight and sees the later ones;
+/// nobody panics or hangs.  share() and share_threads().
+pub fn run_share_reenter(_body: &[Sexp]) -> String {
+  use std::sync::atomic::{AtomicBool, Ordering};
+  fn one(threads: bool) -> String {
+    let (tx, rx) = std::sync::mpsc::channel::<String>();
+    std::thread::spawn(move || {
+      let r = std::panic::catch_unwind(std::panic::AssertUnwindSafe(|| {
+        let a: Arc<Mutex<Vec<i32>>> = Arc::default();
+        let b: Arc<Mutex<Vec<i32>>> = Arc::default();
+        let joined = Arc::new(AtomicBool::new(false));
+        if threads {
+          let source: SubjectThreads<i32, ()> = SubjectThreads::default();
+          let shared = source.clone().share_threads();
+          let (a2, b2, j2, sh2) = (a.clone(), b.clone(), joined.clone(), shared.clone());
+          let _ua = shared.clone().on_error(|_: ()| {}).subscribe(move |v: i32| {
+            a2.lock().unwrap().push(v);
+            if !j2.swap(true, Ordering::SeqCst) {
+              let b3 = b2.clone();
+              let _ub = sh2.clone().on_error(|_: ()| {}).subscribe(move |v: i32| b3.lock().unwrap().push(v));
+              std::mem::forget(_ub);
+            }
+          });
+          source.clone().next(1);
+          source.clone().next(2);
+          std::mem::forget(_ua);
+        } else {
+          let source: Subject<'static, i32, ()> = Subject::default();
+          let shared = source.clone().share();
+          let (a2, b2, j2, sh2) = (a.clone(), b.clone(), joined.clone(), shared.clone());
+          let _ua = shared.clone().on_error(|_: ()| {}).subscribe(move |v: i32| {
+            a2.lock().unwrap().push(v);
+            if !j2.swap(true, Ordering::SeqCst) {
+              let b3 = b2.clone();
+              let _ub = sh2.clone().on_error(|_: ()| {}).subscribe(move |v: i32| b3.lock().unwrap().push(v));
+              std::mem::forget(_ub);
+            }
+          });
+          source.clone().next(1);
+          source.clone().next(2);
+          std::mem::forget(_ua);
+        }
+        let (a, b) = (a.lock().unwrap().clone(), b.lock().unwrap().clone());
+        if a == vec![1, 2] && b == vec![2] {
+          "ok".to_string()
+        } else {
+          format!("first subscriber saw {:?}, the one that joined inside its callback saw {:?}", a, b)
+        }
+      }));
+      let _ = tx.send(r.unwrap_or_else(|_| "panic".to_string()));
+    });
+    match rx.recv_timeout(std::time::Duration::from_secs(8)) {
+      Ok(r) => r,
+      Err(_) => "hang".to_string(),
+    }
+  }
+  let (l, t) = (one(false), one(true));
+  if l == "ok" && t == "ok" {
+    "ok".into()
+  } else {
+    format!("share: {l}; share_threads: {t}")
+  }
+}
